@@ -365,6 +365,104 @@ def load_corpus(cs):
     return n
 
 
+
+# ---------------------------------------------------------------------------------------------------
+# extraction spot-check: a few dozen short cases are evaluated inside Coq (vm_compute) and must give what the extracted
+# OCaml model printed
+
+OPNAME = {0: 'Continuation', 1: 'Text', 2: 'Binary', 8: 'Close', 9: 'Ping', 10: 'Pong'}
+
+
+def coq_list(b):
+    return '[' + '; '.join(str(x) for x in b) + ']'
+
+
+def coq_bool(x):
+    return 'true' if x else 'false'
+
+
+def coq_frame(fin, rsv, op, mask, length, key, payload):
+    return '(mkFrame %s %s %s %s %s %s %d (mkKey %d %d %d %d) %s)' % (
+        coq_bool(fin), coq_bool(rsv[0] == '1'), coq_bool(rsv[1] == '1'), coq_bool(rsv[2] == '1'), OPNAME[op],
+        coq_bool(mask), length, key[0], key[1], key[2], key[3], coq_list(payload))
+
+
+def coq_chunks(data, plan):
+    out, pos = [], 0
+    for n in py_chunk_sizes(plan, len(data)):
+        out.append(data[pos:pos + n])
+        pos += n
+    return out
+
+
+def coq_expect_dec(model_line, data, plan):
+    """Coq term for what the extracted model printed for `c10_dec data plan` (None if not representable)"""
+    main, _ = split_tail(model_line, 'alloc')
+    if main == 'err:read':
+        return 'Err 1'
+    if main == 'err:opcode':
+        return 'Err 2'
+    if not main.startswith('ok '):
+        return None
+    kv = dict(x.split('=', 1) for x in main[3:].split(' '))
+    if not kv['payload'].startswith('h'):
+        return None
+    consumed = int(kv['consumed'])
+    left = []
+    for c in coq_chunks(data, plan):
+        if consumed > 0 and consumed >= len(c):
+            consumed -= len(c)
+            continue
+        if consumed > 0:
+            left.append(c[consumed:])
+            consumed = 0
+        else:
+            left.append(c)
+    fr = coq_frame(kv['fin'] == '1', kv['rsv'], int(kv['op']), kv['mask'] == '1', int(kv['len']), bytes.fromhex(kv['key']),
+                   bytes.fromhex(kv['payload'][1:]))
+    return 'Ok (%s, [%s])' % (fr, '; '.join(coq_list(c) for c in left))
+
+
+def coq_crosscheck(ctx, dec_cases, enc_cases):
+    """dec_cases: [(data, plan, model_line)], enc_cases: [(meta, model_line)]"""
+    goals = []
+    for data, plan, ml in dec_cases:
+        e = coq_expect_dec(ml, data, plan)
+        if e is None:
+            continue
+        cs = '[' + '; '.join(coq_list(c) for c in coq_chunks(data, plan)) + ']'
+        goals.append(('decode %s = %s' % (cs, e), {'kind': 'dec', 'data': data.hex(), 'plan': plan}))
+    for meta, ml in enc_cases:
+        if not ml.startswith('some:h') or meta['op'] not in OPNAME:
+            continue
+        fl = meta['fl']
+        fr = coq_frame(fl >> 3, '%d%d%d' % ((fl >> 2) & 1, (fl >> 1) & 1, fl & 1), meta['op'], meta['mask'], meta['length'],
+                       meta['key'], meta['payload'])
+        goals.append(('encode %s = %s' % (fr, coq_list(bytes.fromhex(ml[6:]))),
+                      {'kind': 'enc', 'fl': fl, 'op': meta['op'], 'mask': int(meta['mask']), 'key': meta['key'].hex(),
+                       'payload': meta['payload'].hex(), 'length': meta['length']}))
+    if not goals:
+        return
+    wd = hv.V + '/work'
+    os.makedirs(wd, exist_ok=True)
+    src = ['From Hv Require Import Prelude Stream Frame.', 'Open Scope N_scope.']
+    for k, (g, _) in enumerate(goals):
+        src.append('Goal %s. Proof. vm_compute. reflexivity. Qed. (* case %d *)' % (g, k))
+    open(wd + '/c10_cases.v', 'w').write('\n'.join(src) + '\n')
+    rc, out = hv.sh('timeout 300 coqc -Q %s/theories Hv %s/c10_cases.v' % (hv.COQ, wd), timeout=400)
+    ctx.count('coq-vm-crosscheck', len(goals))
+    ctx.extra['extraction_crosscheck'] = {'cases': len(goals), 'ok': rc == 0,
+                                          'cmd': 'coqc -Q coq/theories Hv work/c10_cases.v (vm_compute of decode/encode inside Coq '
+                                                 '= output of the extracted OCaml model)'}
+    if rc != 0:
+        import re
+        mline = re.search(r'line (\d+)', out)
+        k = int(mline.group(1)) - 3 if mline else 0
+        case = goals[k][1] if 0 <= k < len(goals) else {'kind': 'crosscheck'}
+        ctx.report(case, 'coqc: ' + out[-300:], 'vm_compute inside Coq = extracted model', cls='extraction-crosscheck',
+                   failing_input=False, what='extracted OCaml model and vm_compute inside Coq disagree: ' + goals[k][0][:200])
+
+
 # ---------------------------------------------------------------------------------------------------
 
 def balanced(binary, lines, shards=16):
@@ -464,6 +562,7 @@ def run(ctx):
     # ---------------- encode ----------------
     lines = [l for l, _ in cs.enc]
     m = model_run(lines)
+    enc_model = m
     im = impl_limited(lines)
     ctx.evaluations += len(lines)
     roundtrip = []
@@ -595,6 +694,16 @@ def run(ctx):
             nsample += 1
             ctx.sample({'stream': tag, 'bytes': data[:24].hex() + ('…' if len(data) > 24 else ''), 'n': len(data),
                         'plan': plan[:40], 'model': a_main[:140], 'impl': b_core[:140]})
+
+    # ---------------- extraction spot-check inside Coq ----------------
+    seen, dsel = {}, []
+    for (line, meta), a in zip(alldec, m):
+        key = (meta['tag'], a.split(' ')[0])
+        if len(meta['data']) <= 24 and seen.get(key, 0) < 3:
+            seen[key] = seen.get(key, 0) + 1
+            dsel.append((meta['data'], meta['plan'], a))
+    esel = [(meta, a) for (line, meta), a in zip(cs.enc, enc_model) if len(meta['payload']) <= 12][:20]
+    coq_crosscheck(ctx, dsel[:60], esel)
 
     # ---------------- short inputs again, under a limit a few MiB above what the harness itself needs ----------------
     # (a buffer sized from the claimed length instead of the bytes supplied kills the process here even if it is capped
